@@ -62,7 +62,7 @@ def quote(s):
     return "".join(out)
 
 
-def render_conf(modules, moddir, timeout=None, services=(), rules=(), logs=(), extra=""):
+def render_conf(modules, moddir, timeout=None, services=(), rules=(), logs=(), extra="", omit=()):
     """services: [(name, protocol)], rules: [(name, {field: value})] or
     (name, None, rawvalue) for a non-object child, logs: [(key, [dest...])]."""
     L = []
@@ -74,11 +74,15 @@ def render_conf(modules, moddir, timeout=None, services=(), rules=(), logs=(), e
         L.append("iauth { timeout %s; };" % quote(str(timeout)))
     else:
         L.append("iauth { };")
-    L.append("iauth_xquery {")
-    for name, proto in services:
-        L.append("  %s %s;" % (quote(name), quote(proto)))
-    L.append("};")
-    L.append("iauth_class {")
+    if "iauth_xquery" not in omit:
+        L.append("iauth_xquery {")
+        for name, proto in services:
+            L.append("  %s %s;" % (quote(name), quote(proto)))
+        L.append("};")
+    if "iauth_class" in omit:
+        rules = ()
+    else:
+        L.append("iauth_class {")
     for r in rules:
         name, fields = r[0], r[1]
         if fields is None:
@@ -88,7 +92,8 @@ def render_conf(modules, moddir, timeout=None, services=(), rules=(), logs=(), e
         for k, v in fields.items():
             L.append("    %s %s;" % (k, quote(v)))
         L.append("  };")
-    L.append("};")
+    if "iauth_class" not in omit:
+        L.append("};")
     L.append("logs {")
     for key, dests in logs:
         if isinstance(dests, str):
